@@ -8,6 +8,7 @@ package main
 // in [5 s, 10 s), everything offered before the deadline was read.
 
 import (
+	"encoding/hex"
 	"fmt"
 	"net"
 	"os"
@@ -29,7 +30,7 @@ import (
 type probeStream struct {
 	name    string
 	data    []byte
-	derived bool // contains material derived from a secret registered on the probed phantom
+	derived bool  // contains material derived from a secret registered on the probed phantom
 	cutAt   []int // additional structural cut positions for this stream
 }
 
@@ -234,9 +235,111 @@ func c03Debug() {
 	}
 }
 
+// c03Replay is the replay artefact of one case: everything needed to run it again without the enumeration
+// (the stream bytes are kept because genuine flights are freshly randomised in every run).
+func c03Replay(id, registry string, st probeStream, segs [][]byte, gaps []time.Duration, draw int64) map[string]any {
+	var lens []int
+	for _, sg := range segs {
+		lens = append(lens, len(sg))
+	}
+	var g []int64
+	for _, d := range gaps {
+		g = append(g, int64(d))
+	}
+	return map[string]any{"case": id, "registry": registry, "stream": st.name, "stream_hex": hex.EncodeToString(st.data), "derived": st.derived, "segment_lengths": lens, "gaps_ns": g, "draw": draw}
+}
+
+// c03Judge is the oracle for one probe run; it returns (key, description) pairs.
+func c03Judge(id string, r probeResult, derived bool, segs [][]byte, gaps []time.Duration, sleepPath map[string]bool, stream string) [][2]string {
+	var out [][2]string
+	if r.verdict != vsched.VOK {
+		key := r.verdict
+		if r.verdict == vsched.VPanic {
+			key = "panic"
+		}
+		return append(out, [2]string{key, id + ": " + r.detail})
+	}
+	if r.written != 0 {
+		out = append(out, [2]string{"bytes-written-to-unauthenticated-peer", fmt.Sprintf("%s: %d bytes written", id, r.written)})
+	}
+	if !r.hasDL {
+		return append(out, [2]string{"no-classification-deadline", id})
+	}
+	if r.deadline < 5*time.Second || r.deadline >= 10*time.Second {
+		out = append(out, [2]string{"deadline-out-of-range", fmt.Sprintf("%s: deadline %v after entry", id, r.deadline)})
+	}
+	if r.closes > 0 && r.closedAt < r.deadline {
+		k := "closed-before-deadline"
+		if derived {
+			k += ":secret-derived-input"
+		}
+		out = append(out, [2]string{k, fmt.Sprintf("%s: connection closed after %v, deadline %v; calls: %s", id, r.closedAt, r.deadline, r.calls)})
+	}
+	if r.returnedAt < r.deadline {
+		k := "returned-before-deadline"
+		if derived {
+			k += ":secret-derived-input"
+		}
+		out = append(out, [2]string{k, fmt.Sprintf("%s: handler returned (connection closed) after %v, deadline %v", id, r.returnedAt, r.deadline)})
+	}
+	// everything offered before the deadline must have been read
+	offered := 0
+	at := time.Duration(0)
+	for i, sgm := range segs {
+		if i > 0 {
+			at += gaps[(i-1)%len(gaps)]
+		}
+		if at < r.deadline {
+			offered += len(sgm)
+		}
+	}
+	if r.read < offered {
+		if derived {
+			sleepPath[stream] = true // documented sleep path: only reachable with secret-derived material
+		} else {
+			out = append(out, [2]string{"stopped-reading-before-deadline", fmt.Sprintf("%s: %d of %d offered bytes read", id, r.read, offered)})
+		}
+	}
+	return out
+}
+
+// c03RunReplay runs exactly the case stored in a replay file.
+func c03RunReplay(a *vh.Args) {
+	quiet()
+	rp := vh.LoadReplay(a.Replay)
+	data, err := hex.DecodeString(rp["stream_hex"].(string))
+	if err != nil {
+		vh.Fatal("replay stream: %v", err)
+	}
+	var segs [][]byte
+	off := 0
+	for _, l := range vh.Ints(rp["segment_lengths"]) {
+		segs = append(segs, data[off:off+l])
+		off += l
+	}
+	var gaps []time.Duration
+	for _, g := range vh.Ints(rp["gaps_ns"]) {
+		gaps = append(gaps, time.Duration(g))
+	}
+	draw, _ := rp["draw"].(float64)
+	derived, _ := rp["derived"].(bool)
+	id, _ := rp["case"].(string)
+	r := runProbe(c03Registry(rp["registry"].(string)), c03Phantom, segs, gaps, int64(draw))
+	loud()
+	o := &vh.Out{Name: "replay", Evaluations: 1}
+	for _, v := range c03Judge(id, r, derived, segs, gaps, map[string]bool{}, "") {
+		o.Violations = append(o.Violations, &vh.Violation{Key: v[0], What: v[1]})
+	}
+	vh.Emit(o)
+}
+
 func verifC03(a *vh.Args) {
 	if os.Getenv("VERIF_C03_DEBUG") != "" {
 		c03Debug()
+		return
+	}
+	if a.Replay != "" {
+		c03RunReplay(a)
 		return
 	}
 	quiet()
@@ -299,56 +402,9 @@ func verifC03(a *vh.Args) {
 					}
 					id := fmt.Sprintf("registry=%s;stream=%s;%s;draw=%d", rk, st.name, s.name, draw)
 					r := runProbe(rm, c03Phantom, s.segs, s.gaps, draw)
-					rep := map[string]any{"case": id}
-					if r.verdict != vsched.VOK {
-						key := r.verdict
-						if r.verdict == vsched.VPanic {
-							key = "panic"
-						}
-						e.Violation(key, id+": "+r.detail, rep)
-						continue
-					}
-					if r.written != 0 {
-						e.Violation("bytes-written-to-unauthenticated-peer", fmt.Sprintf("%s: %d bytes written", id, r.written), rep)
-					}
-					if !r.hasDL {
-						e.Violation("no-classification-deadline", id, rep)
-						continue
-					}
-					if r.deadline < 5*time.Second || r.deadline >= 10*time.Second {
-						e.Violation("deadline-out-of-range", fmt.Sprintf("%s: deadline %v after entry", id, r.deadline), rep)
-					}
-					if r.closes > 0 && r.closedAt < r.deadline {
-						k := "closed-before-deadline"
-						if st.derived {
-							k += ":secret-derived-input"
-						}
-						e.Violation(k, fmt.Sprintf("%s: connection closed after %v, deadline %v; calls: %s", id, r.closedAt, r.deadline, r.calls), rep)
-					}
-					if r.returnedAt < r.deadline {
-						k := "returned-before-deadline"
-						if st.derived {
-							k += ":secret-derived-input"
-						}
-						e.Violation(k, fmt.Sprintf("%s: handler returned (connection closed) after %v, deadline %v", id, r.returnedAt, r.deadline), rep)
-					}
-					// everything offered before the deadline must have been read
-					offered := 0
-					at := time.Duration(0)
-					for i, sgm := range s.segs {
-						if i > 0 {
-							at += s.gaps[(i-1)%len(s.gaps)]
-						}
-						if at < r.deadline {
-							offered += len(sgm)
-						}
-					}
-					if r.read < offered {
-						if st.derived {
-							sleepPath[st.name] = true // documented sleep path: only reachable with secret-derived material
-						} else {
-							e.Violation("stopped-reading-before-deadline", fmt.Sprintf("%s: %d of %d offered bytes read", id, r.read, offered), rep)
-						}
+					rep := c03Replay(id, rk, st, s.segs, s.gaps, draw)
+					for _, v := range c03Judge(id, r, st.derived, s.segs, s.gaps, sleepPath, st.name) {
+						e.Violation(v[0], v[1], rep)
 					}
 					e.Nontrivial(fmt.Sprintf("%s|%s|%s", rk, st.name, s.name))
 					if n%7919 == 0 {
